@@ -16,7 +16,7 @@ impl Scenario for C02 {
         vec!["amq-protocol codec trusted at the peer".into(), "frame_max as negotiated by the simulated broker's Tune and the client option".into()]
     }
     fn plan(&self, thorough: bool, seed: u64) -> Vec<CaseSpec> {
-        plan_random("C02", "publish", seed, if thorough { 100_000 } else { 5_000 })
+        plan_random("C02", "publish", seed, if thorough { 200_000 } else { 10_000 })
     }
     fn run_case(&self, spec: &CaseSpec, text: bool) -> CaseReport {
         let mut cs = spec.stream();
